@@ -136,7 +136,26 @@ def alloc(shape, dtype, layout):
     return np.zeros(shape, dtype=dtype, order='C'), None
 
 
-def _make_elem(space, layout, views, gaps, shared=False):
+def _overlap_view(shape, dtype, layout, pool):
+    """Layouts 'OA' / 'OB': the views buf[1:] / buf[:-1] (pool['order'] == 'C': shift along the
+    first axis of a C buffer; 'F': shift along the last axis of an F buffer) of ONE buffer per
+    leaf.  The 'OA' register creates the buffers, the 'OB' register picks them up in order."""
+    shape = tuple(int(x) for x in shape)
+    if layout == 'OA':
+        if pool['order'] == 'F' and len(shape) >= 2:
+            buf = np.zeros(shape[:-1] + (shape[-1] + 1,), dtype=dtype, order='F')
+            va, vb, ax = buf[..., 1:], buf[..., :-1], -1
+        else:
+            buf = np.zeros((shape[0] + 1,) + shape[1:], dtype=dtype, order='C')
+            va, vb, ax = buf[1:], buf[:-1], 0
+        pool['bufs'].append((buf, va, vb, ax))
+        return va
+    buf, va, vb, ax = pool['bufs'][pool['pos']]
+    pool['pos'] += 1
+    return vb
+
+
+def _make_elem(space, layout, views, gaps, shared=False, pool=None):
     if is_ps(space):
         if shared:
             sub = []
@@ -144,12 +163,15 @@ def _make_elem(space, layout, views, gaps, shared=False):
             parts = [q] * len(space)
             views.extend(sub * len(space))
         else:
-            parts = [_make_elem(s, layout, views, gaps) for s in space.spaces]
+            parts = [_make_elem(s, layout, views, gaps, pool=pool) for s in space.spaces]
         el = space.element(parts)
         if not all(p is q for p, q in zip(el.parts, parts)):
             raise AssertionError('harness: product element did not wrap its parts')
         return el
-    view, gap = alloc(space.shape, space.dtype, layout)
+    if layout in ('OA', 'OB'):
+        view, gap = _overlap_view(space.shape, space.dtype, layout, pool), None
+    else:
+        view, gap = alloc(space.shape, space.dtype, layout)
     el = space.element(view)
     d = el.data
     if not (d.shape == view.shape and (d is view or (
@@ -166,11 +188,11 @@ def _make_elem(space, layout, views, gaps, shared=False):
 class Reg(object):
     """One register: an element of the space plus direct access to the wrapped arrays."""
 
-    def __init__(self, space, layout, shared=False):
+    def __init__(self, space, layout, shared=False, pool=None):
         self.views = []
         self.gaps = []
         self.layout = layout
-        self.elem = _make_elem(space, layout, self.views, self.gaps, shared)
+        self.elem = _make_elem(space, layout, self.views, self.gaps, shared, pool)
         self.sizes = [int(v.size) for v in self.views]
         self.offs = [0]
         for s in self.sizes[:-1]:
@@ -325,7 +347,19 @@ class Ctx(object):
         self.space = build_space(cfg['space'])
         self.info = Info(self.space)
         lay = cfg.get('lay', ['C', 'C', 'C'])
-        self.regs = [Reg(self.space, l) for l in lay]
+        self.pool = None
+        if cfg.get('ovl'):
+            # r0 and r1: DISTINCT elements over overlapping shifted views of one buffer (they
+            # are only ever read), r2: a separate register for the output
+            self.pool = {'order': cfg['ovl'], 'bufs': [], 'pos': 0}
+            self.regs = [Reg(self.space, 'OA', pool=self.pool),
+                         Reg(self.space, 'OB', pool=self.pool), Reg(self.space, lay[2])]
+            for (buf, va, vb, ax), v0, v1 in zip(self.pool['bufs'], self.regs[0].views,
+                                                 self.regs[1].views):
+                if not (v0 is va and v1 is vb and np.shares_memory(va, vb)):
+                    raise AssertionError('harness: overlapping views not realised')
+        else:
+            self.regs = [Reg(self.space, l) for l in lay]
         if cfg.get('shared'):
             self.regs.append(Reg(self.space, 'C', shared=True))
         self.E = [r.elem for r in self.regs]
@@ -365,6 +399,18 @@ class Ctx(object):
         self.phase = phase
         self.mode = mode
 
+    def load_overlap(self, phase, mode='V'):
+        """Fill the shared buffers (de Bruijn tiling: all ordered value pairs meet in
+        (r0[t], r1[t])) and the separate register r2; r0/r1 contents are read back."""
+        for leaf, (buf, va, vb, ax) in enumerate(self.pool['bufs']):
+            buf[...] = R.overlap_buffer(buf.shape, ax, self.info.dtype, phase, mode, leaf)
+        c2 = R.contents(self.info.dtype, self.info.n, phase, mode, 3)[2]
+        self.regs[2].set(c2)
+        self.C = [self.regs[0].get(), self.regs[1].get(), c2]
+        self.snaps = [r.bytes() for r in self.regs]
+        self.phase = phase
+        self.mode = mode
+
     def restore(self, k=None):
         if k is None:
             for r, c in zip(self.regs, self.C):
@@ -380,11 +426,11 @@ class Ctx(object):
             self.first[key] = '%s phase=%d mode=%s: %s' % (self.head, self.phase, self.mode,
                                                            detail)
 
-    def diff_detail(self, got, exp, tol, operands, mask=None):
+    def diff_detail(self, got, exp, tol, operands, mask=None, ieee=False):
         if mask is not None and got.shape == exp.shape:
             # entries outside the mask are not judged: make them agree
             got = np.where(mask, got, exp)
-        t = R.first_diff(got, exp, tol)
+        t = R.first_diff_ieee(got, exp) if ieee else R.first_diff(got, exp, tol)
         if t is None:
             t = 0
         s = 'flat index %d: expected %r got %r' % (t, exp[t].item(), got[t].item()
@@ -394,7 +440,9 @@ class Ctx(object):
                 s += ' %s=%r' % (name, np.asarray(arr).ravel()[t].item())
         return s
 
-    def equal(self, got, exp, tol, mask=None):
+    def equal(self, got, exp, tol, mask=None, ieee=False):
+        if ieee:
+            return R.same_ieee(got, exp)
         if got.shape != exp.shape:
             return False
         if mask is not None:
@@ -411,7 +459,8 @@ class Ctx(object):
         return ok
 
     def check(self, fam, label, thunk, exp, mut=None, tol=None, ret_is_out=True,
-              operands=(), fresh=False, sig=None, arrays=(), where='', mask=None):
+              operands=(), fresh=False, sig=None, arrays=(), where='', mask=None,
+              ieee=False):
         """Execute ``thunk`` (one call into odl) and compare with the model.
 
         mut is None : the call returns a NEW element whose entries must equal ``exp``.
@@ -446,9 +495,9 @@ class Ctx(object):
                                       '%s: result shares memory with a register' % label)
                             ok = False
                             break
-                if not self.equal(got, exp, tol):
-                    self.viol(fam, 'result_differs', '%s: %s' % (
-                        label, self.diff_detail(got, exp, tol, operands)))
+                if not self.equal(got, exp, tol, None, ieee):
+                    self.viol(fam, 'result_differs' + where, '%s: %s' % (
+                        label, self.diff_detail(got, exp, tol, operands, None, ieee)))
                     ok = False
         else:
             if ret_is_out and ret is not E[mut]:
@@ -456,9 +505,9 @@ class Ctx(object):
                           '%s returned %s, not the output element' % (label, type(ret).__name__))
                 ok = False
             got = self.regs[mut].get()
-            if not self.equal(got, exp, tol, mask):
+            if not self.equal(got, exp, tol, mask, ieee):
                 self.viol(fam, 'result_differs' + where, '%s: %s' % (
-                    label, self.diff_detail(got, exp, tol, operands, mask)))
+                    label, self.diff_detail(got, exp, tol, operands, mask, ieee)))
                 ok = False
             if self.regs[mut].gaps and not self.regs[mut].gaps_same():
                 self.viol(fam, 'memory_outside_view_written',
@@ -614,6 +663,9 @@ def run_arith(cfg):
     sp, E, regs, info = cx.space, cx.E, cx.regs, cx.info
     dt, kind = info.dtype, info.kind
     mode = cfg['mode']
+    if mode == 'Z':
+        with np.errstate(all='ignore'):
+            return _arith_zero_divisors(cx)
     S = scalars(kind, cx.tier, info.big)
     P = R.poison_fill(dt, info.n)
     W = R.wide(dt)
@@ -859,6 +911,138 @@ def run_arith(cfg):
                          operands=(('x', C[i]),), sig='x**frac')
                 cx.check('pow', 'r%d **= %r' % (i, p), lambda: operator.ipow(E[i], p), exp,
                          mut=i, tol=tol, operands=(('x', C[i]),), sig='x**=frac')
+    return cx.result()
+
+
+def _arith_zero_divisors(cx):
+    """Mode 'Z': every form of element-wise division with EXACT ZEROS (both signs) among the
+    divisor entries.  Reference: NumPy's IEEE quotient on copies in the space dtype (x/0 = +-inf,
+    0/0 = nan), compared with nan == nan and the signs of inf exactly; ``_divide`` documents
+    "entry-wise quotient x1 / x2".  An out that is not an operand holds finite values (its own
+    contents, then the constant 7) and, in phase 0, nan/huge."""
+    sp, E, regs, info = cx.space, cx.E, cx.regs, cx.info
+    dt = info.dtype
+    n = info.n
+    S = scalars(info.kind, cx.tier, info.big)
+    P = R.poison_fill(dt, n)
+    SEVEN = np.full(n, 7, dtype=dt)
+    rng3 = range(3)
+    for phase in range(cx.phases()):
+        cx.load(phase, 'Z')
+        C = cx.C
+        for i in rng3:
+            for j in rng3:
+                exp = R.div_ieee(C[i], C[j], dt)
+                ops = (('x1', C[i]), ('x2', C[j]))
+                same = 'same' if i == j else 'diff'
+                cx.check('elem_div', 'r%d / r%d' % (i, j), lambda: E[i] / E[j], exp,
+                         operands=ops, ieee=True, sig='x/y:0:' + same)
+                cx.check('elem_div', 'r%d /= r%d' % (i, j),
+                         lambda: operator.itruediv(E[i], E[j]), exp, mut=i, operands=ops,
+                         ieee=True, sig='x/=y:0:' + same)
+                cx.check('elem_div', 'space.divide(r%d, r%d)' % (i, j),
+                         lambda: sp.divide(E[i], E[j]), exp, operands=ops, ieee=True,
+                         sig='divide:0:new')
+                cx.check('elem_div', 'r%d.divide(r%d)' % (i, j), lambda: E[i].divide(E[j]),
+                         exp, operands=ops, ieee=True, sig='divide:0:method')
+                for k in rng3:
+                    if k in (i, j):
+                        variants = [('', None)]
+                    else:
+                        variants = [('', None), (' [out prefilled with 7]', SEVEN)]
+                        if phase == 0:
+                            variants.append((' [out prefilled with nan/huge]', P))
+                    for txt, fill in variants:
+                        if fill is not None:
+                            regs[k].set(fill)
+                        cx.check('elem_div', 'space.divide(r%d, r%d, out=r%d)%s' % (i, j, k, txt),
+                                 lambda: sp.divide(E[i], E[j], out=E[k]), exp, mut=k,
+                                 operands=ops, ieee=True,
+                                 sig='divide:0:%s' % alias_name(i, j, k))
+        for a in S:
+            num = np.full(n, a, dtype=dt)
+            for i in rng3:
+                cx.check('scalar_div', '%r / r%d' % (a, i), lambda: a / E[i],
+                         R.div_ieee(num, C[i], dt), operands=(('x', C[i]),), ieee=True,
+                         sig='a/x:0:' + sclass(a))
+        ones = np.ones(n, dtype=dt)
+        for p_ in (-1, -2):
+            for i in rng3:
+                den = C[i] if p_ == -1 else R.mul(C[i], C[i], dt)
+                exp = R.div_ieee(ones, den, dt)
+                cx.check('pow', 'r%d ** %d' % (i, p_), lambda: E[i] ** p_, exp,
+                         operands=(('x', C[i]),), ieee=True, sig='x**%d:0' % p_)
+                cx.check('pow', 'r%d **= %d' % (i, p_), lambda: operator.ipow(E[i], p_), exp,
+                         mut=i, operands=(('x', C[i]),), ieee=True, sig='x**=%d:0' % p_)
+    return cx.result()
+
+
+# ------------------------------------------------------------------------------------------
+# kind: overlap  (two DISTINCT operands that are overlapping shifted views of one buffer)
+
+def run_overlap(cfg):
+    """x1 and x2 are different elements (r0 wraps buf[1:], r1 wraps buf[:-1]); they are only
+    read, the output is the separate register r2 or a new element.  Identity, not memory
+    overlap, selects the in-place formulas, so the result must be a*x1 + b*x2 entry-wise."""
+    cx = Ctx(cfg)
+    sp, E, regs, info = cx.space, cx.E, cx.regs, cx.info
+    dt, kind = info.dtype, info.kind
+    S = scalars(kind, cx.tier, info.big)
+    P = R.poison_fill(dt, info.n)
+    nr = min(int(b[0].shape[b[3]]) - 1 for b in cx.pool['bufs'])
+    nph = 1 if info.n >= 30 else int(math.ceil(25.0 / max(1, nr)))
+    FL, FA, FM, FD = ('lincomb(overlapping operands)', 'add_sub(overlapping operands)',
+                      'elem_mul(overlapping operands)', 'elem_div(overlapping operands)')
+    modes = ['V'] if kind in 'iu' else ['V', 'D']
+    for mode in modes:
+        for phase in range(nph):
+            cx.load_overlap(phase, mode)
+            C = cx.C
+            pairs = [(0, 1), (1, 0)]
+            if mode == 'V':
+                for a in S:
+                    for b in S:
+                        exact = dyadic(a, kind) and dyadic(b, kind)
+                        sab = '%s,%s' % (sclass(a), sclass(b))
+                        for i, j in pairs + [(0, 0), (1, 1)]:
+                            exp = R.lincomb(a, C[i], b, C[j], dt)
+                            tol = None if exact else \
+                                TOL_ULPS * cx.eps * R.lincomb_scale(a, C[i], b, C[j])
+                            ops = (('x1', C[i]), ('x2', C[j]))
+                            for var in ((0, 1) if phase == 0 else (0,)):
+                                if var:
+                                    regs[2].set(P)
+                                cx.check(FL, 'space.lincomb(%r, r%d, %r, r%d, out=r2)%s' % (
+                                    a, i, b, j, ' [out prefilled with nan/huge]' if var else ''),
+                                    lambda: sp.lincomb(a, E[i], b, E[j], out=E[2]), exp, mut=2,
+                                    tol=tol, operands=ops,
+                                    sig='ovl:%s:%s' % ('same' if i == j else 'shift', sab))
+                            if i != j:
+                                cx.check(FL, 'space.lincomb(%r, r%d, %r, r%d)' % (a, i, b, j),
+                                         lambda: sp.lincomb(a, E[i], b, E[j]), exp, tol=tol,
+                                         operands=ops, sig='ovl:new:' + sab)
+                for i, j in pairs:
+                    ops = (('x', C[i]), ('y', C[j]))
+                    cx.check(FA, 'r%d + r%d' % (i, j), lambda: E[i] + E[j],
+                             R.add(C[i], C[j], dt), operands=ops, sig='ovl:x+y')
+                    if kind != 'u':
+                        cx.check(FA, 'r%d - r%d' % (i, j), lambda: E[i] - E[j],
+                                 R.sub(C[i], C[j], dt), operands=ops, sig='ovl:x-y')
+                    exp = R.mul(C[i], C[j], dt)
+                    cx.check(FM, 'r%d * r%d' % (i, j), lambda: E[i] * E[j], exp, operands=ops,
+                             sig='ovl:x*y')
+                    cx.check(FM, 'space.multiply(r%d, r%d, out=r2)' % (i, j),
+                             lambda: sp.multiply(E[i], E[j], out=E[2]), exp, mut=2,
+                             operands=ops, sig='ovl:multiply')
+            else:
+                for i, j in pairs:
+                    ops = (('x', C[i]), ('y', C[j]))
+                    exp = R.div(C[i], C[j], dt)
+                    cx.check(FD, 'r%d / r%d' % (i, j), lambda: E[i] / E[j], exp, operands=ops,
+                             sig='ovl:x/y')
+                    cx.check(FD, 'space.divide(r%d, r%d, out=r2)' % (i, j),
+                             lambda: sp.divide(E[i], E[j], out=E[2]), exp, mut=2, operands=ops,
+                             sig='ovl:divide')
     return cx.result()
 
 
@@ -1258,7 +1442,9 @@ def configs(tier):
 
     # ---- arith
     def modes(spec):
-        return ['V'] if R.kind(_spec_dtype(spec)) in 'iu' else ['V', 'D']
+        # V: zeros among the values, no division; D: non-zero divisors, exact quotients;
+        # Z: divisors with exact zeros, division only (IEEE inf/nan expected)
+        return ['V'] if R.kind(_spec_dtype(spec)) in 'iu' else ['V', 'D', 'Z']
     for spec in tens + discr + psp:
         if spec[0] == 'T' and spec[1] in ([49999], [50001], [40, 25, 50]):
             continue        # regimes of the layer below are the business of the lincomb kind
@@ -1272,9 +1458,35 @@ def configs(tier):
         if not _spec_is_power(spec):
             continue
         for bl in ('C', 'S0'):
-            for mode in modes(spec):
+            for mode in modes(spec)[:2]:
                 cfgs.append({'kind': 'bcast', 'space': spec, 'lay': ['C', 'C', 'C'],
                              'blay': bl, 'mode': mode, 'tier': tier})
+
+    # ---- distinct operands that are overlapping shifted views of one buffer (read only)
+    osp = []
+    for dt in dts:
+        for sh in ([3], [99], [100], [101], [50000]):
+            osp.append((['T', sh, dt], 'C', 'C'))
+        osp.append((['T', [10, 10], dt], 'F', 'C'))
+    osp += [(['T', [10, 10], 'float64'], 'C', 'F'), (['T', [250, 200], 'float64'], 'C', 'C'),
+            (['T', [250, 200], 'float64'], 'F', 'F'), (['T', [2, 5, 10], 'float64'], 'C', 'C'),
+            (['U', [100], 'float64'], 'C', 'C'), (['U', [50000], 'float64'], 'C', 'C'),
+            (['U', [10, 10], 'float32'], 'F', 'F'), (['P', RN(120), RN(3)], 'C', 'C'),
+            (['W', RN(3), 2], 'C', 'C')]
+    if thorough:
+        for dt in dts:
+            for sh in ([49999], [50001]):
+                osp.append((['T', sh, dt], 'C', 'C'))
+            osp.append((['T', [250, 200], dt], 'F', 'F'))
+            osp.append((['T', [100], dt], 'C', 'S0'))
+        osp += [(['T', [40, 25, 50], 'float64'], 'C', 'C'),
+                (['U', [250, 200], 'complex128'], 'C', 'C'),
+                (['W', RN(50000), 2], 'C', 'C')]
+    for spec, order, olay in osp:
+        c = {'kind': 'overlap', 'space': spec, 'ovl': order, 'lay': ['OA', 'OB', olay],
+             'tier': tier}
+        if c not in cfgs:
+            cfgs.append(c)
 
     # ---- extreme (finite) magnitudes
     rsp = [(RN(3), ['C', 'C', 'C']), (RN(100), ['C', 'C', 'C']), (RN(50000), ['C', 'C', 'C']),
@@ -1315,7 +1527,7 @@ def configs(tier):
 
 
 RUNNERS = {'lincomb': run_lincomb, 'arith': run_arith, 'bcast': run_bcast, 'hist': run_hist,
-           'range': run_range}
+           'range': run_range, 'overlap': run_overlap}
 
 
 def run(cfg):
